@@ -193,6 +193,19 @@ func (m *Model) mkSlice(base, off, ln, cp string) string {
 	return s
 }
 
+// slAt: position of element i of slice s in the row of its backing array. Kept as an uninterpreted function (defined by
+// one axiom) rather than written out as off+i: the term is what quantifier triggers like {s[i]} match on, and a trigger
+// whose head is the interpreted + is at the mercy of the solver's arithmetic normalisation (off + (j+1) is flattened and
+// no longer matches off + i).
+func (m *Model) slAt(s, i string) string {
+	m.declSlice()
+	if !m.vc.declSet["sl.at"] {
+		m.vc.Declare("sl.at", []Sort{SInt, SInt}, SInt)
+		m.vc.Def("(forall ((s Int) (i Int)) (! (= (sl.at s i) (+ (sl.off s) i)) :pattern ((sl.at s i))))")
+	}
+	return App("sl.at", s, i)
+}
+
 func elemSort(t types.Type) Sort { return sortOf(t) }
 
 // slElem reads element i of slice s (element type et).
@@ -200,7 +213,7 @@ func (m *Model) slElem(h *Heap, et types.Type, s string, i string) string {
 	es := elemSort(et)
 	name := elemVar(et)
 	arr := h.Get(name, ArrSort(SInt, ArrSort(SInt, es)))
-	return Sel(Sel(arr, m.slBase(s)), App("+", m.slOff(s), i))
+	return Sel(Sel(arr, m.slBase(s)), m.slAt(s, i))
 }
 
 func (m *Model) slElemStore(h *Heap, et types.Type, s string, i string, v string) *Heap {
@@ -209,7 +222,7 @@ func (m *Model) slElemStore(h *Heap, et types.Type, s string, i string, v string
 	srt := ArrSort(SInt, ArrSort(SInt, es))
 	arr := h.Get(name, srt)
 	base := m.slBase(s)
-	return h.Set(name, srt, Sto(arr, base, Sto(Sel(arr, base), App("+", m.slOff(s), i), v)))
+	return h.Set(name, srt, Sto(arr, base, Sto(Sel(arr, base), m.slAt(s, i), v)))
 }
 
 // ---- maps ----
